@@ -682,11 +682,11 @@ func truncPlan(tier string) []Plan {
 	if tier == "thorough" {
 		return []Plan{{Cases: 256 + 128, Workers: 16, MaxProcs: 1, Timeout: 120 * time.Minute}}
 	}
-	return []Plan{{Cases: 16 + 16, Workers: 16, MaxProcs: 1, Timeout: 20 * time.Minute}}
+	return []Plan{{Cases: 32 + 32, Workers: 16, MaxProcs: 1, Timeout: 20 * time.Minute}}
 }
 
 func truncRun(w *W, phase, idx int) {
-	nsnap := 16
+	nsnap := 32
 	if w.Thorough() {
 		nsnap = 256
 	}
